@@ -21,7 +21,7 @@ ASSUMPTIONS = ['redundant squash pairs between atoms that are already identified
 MECHANISMS = [('cgsmiles.resolve', 'MoleculeResolver.squash_atoms'), ('cgsmiles.resolve', 'MoleculeResolver.edges_from_bonding_descrpt'),
               ('cgsmiles.pysmiles_utils', 'rebuild_h_atoms')]
 FINDING_FEATURES = {}
-SIZES = {'quick': 3200, 'thorough': 80000}
+SIZES = {'quick': 4800, 'thorough': 80000}
 
 
 def setup():
